@@ -47,4 +47,30 @@ def cpyAccepts (s : FSig) (n : Nat) : Bool :=
 /-- where the two agree: no keyword-only parameter, and `**kwargs` only together with `*args` -/
 def Guard (s : FSig) : Bool := s.reqKw == 0 && s.optKw == 0 && (!s.kwargs || s.varargs)
 
+/-! ## a value *declared* `Callable[[D1..Dm], R]` against `Callable[[E1..En], R]`
+(`matcher._match_callable_args_against_callable`): same length, then position by position the EXPECTED argument type
+is matched against the DECLARED one (contravariance).  Argument types are the scalar builtin classes; `subS a b` is
+pytype's class match "an `a` is accepted where `b` is expected" (MRO + the PEP 484 promotions bool → int → float). -/
+
+inductive Scal where
+  | int | str | float | object | bool
+deriving DecidableEq, Repr
+
+def subS : Scal → Scal → Bool
+  | _, .object => true
+  | .int, .int => true
+  | .str, .str => true
+  | .float, .float => true
+  | .bool, .bool => true
+  | .bool, .int => true
+  | .bool, .float => true
+  | .int, .float => true
+  | _, _ => false
+
+/-- the arity test followed by the `zip` loop over the argument positions -/
+def matchArgs : List Scal → List Scal → Bool
+  | [], [] => true
+  | d :: ds, e :: es => subS e d && matchArgs ds es
+  | _, _ => false
+
 end PytypeModel.Sem.CallableArity
